@@ -188,6 +188,34 @@ var Probes = []Probe{
 		}},
 	{ID: "O37", Props: []string{"C01"}, Input: "a := [1,2,3]; d := splice(a, 1, 9223372036854775807)", WhatFail: "splice computed startIdx+delCount, which overflows for a huge delete count: Go panic (slice bounds out of range) instead of deleting to the end",
 		Run: expectGlobal("a := [1, 2, 3]\nd := splice(a, 1, 9223372036854775807)\n", "d", "(a (i 2) (i 3))")},
+	{ID: "O41", Props: []string{"C01", "C02"}, Input: "33 array literals of 2000 distinct ints each (66000 constants), then v := 5", WhatFail: "constant indexes are emitted as 2-byte operands without a limit check: constant #66000 is loaded as #464 (66000 mod 65536), so v ends as 1000464 instead of 5 and no error is reported",
+		Run: func() (bool, string) {
+			var sb strings.Builder
+			n := 1000000
+			for a := 0; a < 33; a++ {
+				fmt.Fprintf(&sb, "a%d := [", a)
+				for i := 0; i < 2000; i++ {
+					if i > 0 {
+						sb.WriteString(", ")
+					}
+					fmt.Fprintf(&sb, "%d", n)
+					n++
+				}
+				sb.WriteString("]\n")
+			}
+			sb.WriteString("v := 5\n")
+			g, e, p := RunScript(sb.String(), 20*time.Second)
+			if p != "" {
+				return true, "panic: " + p
+			}
+			if strings.HasPrefix(e, "compile: ") {
+				return false, "" // rejected at compile time: acceptable
+			}
+			if e != "" || g["v"] != "(i 5)" {
+				return true, "v = " + g["v"] + " err = " + e
+			}
+			return false, ""
+		}},
 	{ID: "O30", Props: []string{"C01", "C02"}, Input: "call with 256 arguments", WhatFail: "the argument count of OpCall is one byte: a call with 256 arguments is compiled as a call with 0 arguments",
 		Run: func() (bool, string) {
 			var ps, as []string
